@@ -1,3 +1,5 @@
+//go:build amd64 && linux
+
 // Package asmtrace is a ptrace-based single-step tracer for the amd64 assembly
 // permutation: it executes one call of curl.transform instruction by
 // instruction in a child process, decodes the memory operand of every executed
